@@ -365,6 +365,10 @@ def run(ctx):
     numerics(ctx)
     if not ctx.violations:
         ham_tolerance(ctx)
+    if not ctx.violations:
+        ham_fixed_orders(ctx)
+    if not ctx.violations:
+        relative_tolerance(ctx)
     ctx.rule = ("integrator x order x test problem (nonlinear, time-dependent, rational closed-form solutions) x step size / tolerance / "
                 "output grid; distinct by that tuple; non-trivial = problem is nonlinear or non-autonomous")
 
@@ -479,6 +483,12 @@ def _make_system(kind):
             return np.array([y[1], -y[0]])
         exact = lambda t, y0: np.array([y0[0] * np.cos(t) + y0[1] * np.sin(t), -y0[0] * np.sin(t) + y0[1] * np.cos(t)])
         y0 = np.array([1.0, 0.25])
+    elif kind == "decay":      # slowly damped rotation: |y| falls from 1 to e^-14 ~ 8e-7 over t in [0, 14] (the step is accuracy-limited throughout)
+        @numba.njit
+        def rhs(t, y):
+            return np.array([-y[0] + 3.0 * y[1], -3.0 * y[0] - y[1]])
+        exact = lambda t, y0: np.exp(-t) * np.array([y0[0] * np.cos(3.0 * t) + y0[1] * np.sin(3.0 * t), -y0[0] * np.sin(3.0 * t) + y0[1] * np.cos(3.0 * t)])
+        y0 = np.array([0.8, 0.6])
     else:
         raise ValueError(kind)
 
@@ -566,6 +576,69 @@ def ham_tolerance(ctx):
                 ctx.violation("adaptive-tol-hamiltonian:%d" % p,
                               "adaptive order %d on a polynomial Hamiltonian system: error %.3g = %.0f x (atol + rtol*|y|) with rtol=%g, atol=%g" % (p, err, ratio, rtol, atol),
                               {"order": p, "rtol": rtol, "atol": atol, "hamiltonian": {str(k): v for k, v in hd.items()}, "y0": y0.tolist(), "t_end": 5.0, "error": err})
+                return
+
+
+def relative_tolerance(ctx):
+    """A solution that decays by six orders of magnitude with rtol >> atol: the error is controlled RELATIVE TO THE CURRENT state at every
+    output time (a controller scaling the error with a stale state would deliver rtol*|y0|)."""
+    from hiten.algorithms.integrators import rk
+    sysm, exact, y0 = _make_system("decay")
+    tv = np.linspace(0.0, 14.0, 57)
+    ex = np.array([exact(t, y0) for t in tv])
+    for p in sorted(rk.AdaptiveRK._map):
+        for rtol in ((1e-6, 1e-9) if not ctx.thorough() else (1e-6, 1e-8, 1e-10)):
+            atol = 1e-18
+            sol = rk.AdaptiveRK(p, rtol=rtol, atol=atol).integrate(sysm, y0, tv)
+            ratio = np.abs(np.asarray(sol.states) - ex).max(axis=1) / (atol + rtol * np.abs(ex).max(axis=1))
+            worst = float(ratio.max())
+            ctx.case(("relative-tol", p, rtol), nontrivial=True, kind="adaptive-relative-tol", sample={"order": p, "rtol": rtol, "atol": atol, "worst_err_over_tol": worst} if rtol == 1e-6 else None)
+            ctx.extra.setdefault("relative_tol_ratio", {})["%d:%g" % (p, rtol)] = round(worst, 2)
+            if not worst <= 500:
+                i = int(np.argmax(ratio))
+                ctx.violation("adaptive-relative-tol:%d" % p,
+                              "adaptive order %d on a decaying solution (|y| from 1 to 8e-7): error at t=%.3g is %.0f x (atol + rtol*|y(t)|) with rtol=%g, atol=%g" % (
+                                  p, tv[i], worst, rtol, atol),
+                              {"order": p, "problem": "y' = [[-1,3],[-3,-1]] y, y0 = (0.8,0.6), t in [0,14]", "rtol": rtol, "atol": atol, "grid": tv.tolist(),
+                               "err_over_tol": ratio.tolist(), "states": np.asarray(sol.states).tolist()})
+                return
+
+
+def ham_fixed_orders(ctx):
+    """Fixed-step RK on a polynomial Hamiltonian system (the `_ham` kernel twins), on a GRADED time grid (every interval has its own step) and
+    on a uniform one: the global error must shrink at the declared order when the grid is refined."""
+    import polyutil as PU
+    from hiten.algorithms.integrators import rk
+    hd = {(0, 0, 0, 2, 0, 0): 0.5, (2, 0, 0, 0, 0, 0): 0.5, (0, 0, 0, 0, 2, 0): 0.6, (0, 2, 0, 0, 0, 0): 0.4, (0, 0, 0, 0, 0, 2): 0.5,
+          (0, 0, 2, 0, 0, 0): 0.8, (1, 0, 0, 1, 1, 0): 0.3, (0, 1, 1, 0, 0, 1): -0.2, (1, 1, 0, 1, 1, 0): 0.25, (3, 0, 0, 0, 0, 0): 0.4}
+    sysm, H = PU.ham_system(hd, 4)
+    y0 = 0.3 * np.array([1.0, -0.7, 0.5, 0.3, 0.8, -0.4])
+    T_end = 2.0
+    refint = rk.AdaptiveRK(8, rtol=1e-13, atol=1e-15)
+    for kind in ("graded", "uniform"):
+        for p in (4, 6, 8):
+            Ns = {4: (40, 80, 160), 6: (20, 40, 80), 8: (10, 20, 40)}[p]
+            errs = []
+            for N in Ns:
+                u = np.linspace(0.0, 1.0, N + 1)
+                tv = T_end * (u ** 1.5 if kind == "graded" else u)
+                sol = rk.FixedRK(p).integrate(sysm, y0.copy(), tv)
+                # EVERY returned sample is compared (a driver that steps uniformly and only labels the samples with the requested
+                # times still ends at the right state): reference = tight adaptive run sampled at the same times
+                ref = np.asarray(refint.integrate(sysm, y0.copy(), tv).states)
+                errs.append(float(np.abs(np.asarray(sol.states) - ref).max()))
+            rates = [math.log(errs[i] / errs[i + 1], 2) if errs[i + 1] > 0 and errs[i] > 0 else float("inf") for i in range(len(errs) - 1)]
+            ctx.case(("ham-fixed-order", kind, p), nontrivial=True, kind="fixed-order-hamiltonian:%s" % kind,
+                     sample={"order": p, "grid": kind, "errors": errs, "rates": rates} if kind == "graded" else None)
+            ctx.extra.setdefault("ham_fixed_rates", {})["%s:%d" % (kind, p)] = [round(r, 2) for r in rates]
+            floor = 5e-13
+            ok = all(r >= p - 1.0 for r, e in zip(rates, errs[1:]) if e > floor) and errs[-1] < 1e-3
+            if not ok:
+                ctx.violation("fixed-order-hamiltonian:%d" % p,
+                              "fixed-step order %d on a polynomial Hamiltonian system, %s grid: errors %r (observed rates %r) do not shrink at order %d" % (
+                                  p, kind, ["%.3g" % e for e in errs], ["%.2f" % r for r in rates], p),
+                              {"order": p, "grid": kind + (": t_i = T*(i/N)^1.5" if kind == "graded" else ""), "N": list(Ns), "errors": errs, "rates": rates,
+                               "hamiltonian": {str(k): v for k, v in hd.items()}, "y0": y0.tolist(), "t_end": T_end})
                 return
 
 
